@@ -262,7 +262,10 @@ func genPow2Lead(t *rapid.T) *big.Int {
 
 // genExp draws an exponent in [Emin, Emax].
 func genExp(t *rapid.T) int {
-	switch ir(t, 0, 7, "expKind") {
+	switch ir(t, 0, 8, "expKind") {
+	case 8:
+		// exactly zero (plain integers: `exp == exponentBias` selects shortcuts of its own), or next to it
+		return []int{0, 0, 0, 1, -1}[ir(t, 0, 4, "ezero")]
 	case 0:
 		return ref.Emin + ir(t, 0, 80, "eoff")
 	case 1:
